@@ -191,6 +191,44 @@ fn gen(thorough: bool, seeds: Vec<(String, Vec<u8>, bool)>) -> impl Fn(&mut Enum
                     }
                 }
             }
+            // 2 deviations across headers: the same field in two different program headers (a
+            // TLS / RELRO / PHDR header refers to the area a LOAD header created, so the two only
+            // meet when both are moved). Generated seeds: every pair of headers; bundled files:
+            // thorough only.
+            if *generated || thorough {
+                let mut phs: Vec<Vec<&Field>> = vec![];
+                for k in 0..16 {
+                    let g: Vec<&Field> = fields.iter().filter(|f| f.name.starts_with(&format!("ph{k}."))).collect();
+                    if !g.is_empty() {
+                        phs.push(g);
+                    }
+                }
+                for x in 0..phs.len() {
+                    for y in x + 1..phs.len() {
+                        for fa in &phs[x] {
+                            let tail = fa.name.split_once('.').map(|t| t.1).unwrap_or("");
+                            if tail == "p_paddr" || tail == "p_align" || tail == "p_flags" {
+                                continue;
+                            }
+                            let fb = match phs[y].iter().find(|f| f.name.split_once('.').map(|t| t.1) == Some(tail)) {
+                                Some(f) => f,
+                                None => continue,
+                            };
+                            for a in &values(fa, flen) {
+                                for b in &values(fb, flen) {
+                                    if !e.next() {
+                                        continue;
+                                    }
+                                    let mut m = bytes.clone();
+                                    put(&mut m, fa, *a);
+                                    put(&mut m, fb, *b);
+                                    load(e, name, &m, &format!("{}={:#x},{}={:#x}", fa.name, a, fb.name, b), "pair(same field, two program headers)");
+                                }
+                            }
+                        }
+                    }
+                }
+            }
             // 3 deviations (thorough): all triples inside one of the first three program headers
             // over the fields the loader reads
             if thorough {
@@ -277,7 +315,7 @@ pub fn run(tier: Tier) -> i32 {
         run.findings.merge(f);
         run.cov("devlike_profile_run", summary);
     }
-    enum_evidence(&mut run, &out, "one case = a seed (3 bundled binaries, 6 generated files incl. TLS / dynamic / RELRO / page-sized bss) with 0, 1 or 2 (thorough: also 3 inside one of the first three program headers) header fields replaced by a value of the boundary alphabet {0,1,2,0x7F,0xFF,0x1000,0xFFFF,2^24,2^31-1,2^31,2^32,2^40,2^63-1,2^63,2^64-0x1000,2^64-1,len-1,len,len+1} plus every defined type constant (pairs: inside one program header, the e_ph* group, the e_sh* group, the symtab/strtab section headers), or truncated (generated files: every length; bundled: every length inside header, program headers, section headers, symbol tables); loaded in a worker with catch_unwind, a 1 GiB single-allocation guard, RLIMIT_AS and a hang watchdog; states = distinct (seed, mutation); distinct_nontrivial = distinct (seed, mutation, outcome, error text)");
+    enum_evidence(&mut run, &out, "one case = a seed (3 bundled binaries, 6 generated files incl. TLS / dynamic / RELRO / page-sized bss) with 0, 1 or 2 (thorough: also 3 inside one of the first three program headers) header fields replaced by a value of the boundary alphabet {0,1,2,0x7F,0xFF,0x1000,0xFFFF,2^24,2^31-1,2^31,2^32,2^40,2^63-1,2^63,2^64-0x1000,2^64-1,len-1,len,len+1} plus every defined type constant (pairs: inside one program header, the same field in two program headers, the e_ph* group, the e_sh* group, the symtab/strtab section headers), or truncated (generated files: every length; bundled: every length inside header, program headers, section headers, symbol tables); loaded in a worker with catch_unwind, a 1 GiB single-allocation guard, RLIMIT_AS and a hang watchdog; states = distinct (seed, mutation); distinct_nontrivial = distinct (seed, mutation, outcome, error text)");
     run.cov("seeds", json!(nseeds));
     run.guard("cases", out.cases >= 20_000 || out.capped, format!("{} inputs", out.cases));
     let okc = out.counters.get("ok").cloned().unwrap_or(0);
